@@ -92,6 +92,12 @@ def check(case):
         fresh = R.build(spec)
         require(set(vars(c)) == set(vars(fresh)), "clone:not-unfitted", "attributes %r vs a fresh instance %r" % (sorted(set(vars(c)) ^ set(vars(fresh))), ""), facts)
 
+    # ---- two separately constructed instances share no mutable parameter object
+    pa, pb = a.get_params(deep=False), b.get_params(deep=False)
+    for k in pa:
+        if k in pb and hasattr(pa[k], "get_params") and not isinstance(pa[k], type):
+            require(pa[k] is not pb[k], "construct:shared-parameter-object", "parameter %r of two separately built instances is the same object" % k, dict(facts, key=k))
+
     # ---- clone of a fitted instance is unfitted and equal
     data = case.get("data")
     if entry is not None and data is not None:
@@ -119,11 +125,13 @@ def check(case):
             key = common[op[2] % len(common)]
             value = _copy_value(po[key])
             before = R.params_image(x)
+            other_before = R.params_image(other)
             want = R.norm_param(value)
             f2 = dict(facts, key_kind=_key_kind(key), key=key)
             r = _guard("set_params", lambda: x.set_params(**{key: value}), f2)
             require(r is x, "set_params:does-not-return-self", "set_params(%s=...) returned %r" % (key, type(r).__name__), f2)
             after = R.params_image(x)
+            require(R.params_image(other) == other_before, "set_params:changes-another-instance", "set_params(%s=...) on one instance changed another one" % key, f2)
             require(key in after, "set_params:key-vanished", "%r no longer advertised" % key, f2)
             require(after[key] == want, "set_params:key-not-set", "%s: get_params reports %r after setting %r" % (key, _short(after[key]), _short(want)), f2)
             for k in before:
@@ -164,6 +172,13 @@ def check(case):
         pb = R.fingerprint(entry, fb, Z)
         d = R.same_fingerprint(pa, pb, exact=entry.exact)
         require(d is None, "behaviour:differs-after-set_params", "B.set_params(**A.get_params()) does not behave like A: %s" % d, facts)
+        # the reconfigured instance ITSELF (not a clone, which goes through the constructor) behaves like A
+        np.random.seed(case["seed"])
+        _guard("fit-after-set_params", lambda: entry.fit(b2, *R.materialize(data)), facts)
+        np.random.seed(case["seed"] + 1)
+        pc = _guard("output-after-set_params", lambda: R.fingerprint(entry, b2, Z), facts)
+        d = R.same_fingerprint(pa, pc, exact=entry.exact)
+        require(d is None, "behaviour:instance-differs-after-set_params", "the instance reconfigured by set_params(**A.get_params()) and then fitted does not behave like A: %s" % d, facts)
         labels.add("behaviour-checked")
     if case["A"] != case["B"]:
         labels.add("A!=B")
